@@ -149,6 +149,34 @@ fn main() {
         ("fs_connect_timeout_gt_timeout", 1500.0),
         ("fs_retry_1", 2000.0),
         ("fs_retry_2", 2000.0),
+        // history part (hist.rs / histo.rs)
+        ("fs_hist_cases", 8000.0),
+        ("fs_hist_lookups", 25_000.0),
+        ("fs_hist_repeated_name_lookups", 10_000.0),
+        ("fs_hist_hits", 12_000.0),
+        ("fs_hist_hit_fin-eager", 1800.0),
+        ("fs_hist_hit_fin-lazy", 1100.0),
+        ("fs_hist_hit_rst-eager", 900.0),
+        ("fs_hist_hit_write-fails", 2000.0),
+        ("fs_hist_hit_no-reply", 2000.0),
+        ("fs_hist_hit_partial", 1500.0),
+        ("fs_hist_hit_fin-after-answer", 1800.0),
+        ("fs_hist_hit_udp-send-reset", 350.0),
+        ("fs_hist_hit_udp-send-other", 350.0),
+        ("fs_hist_answered_on_reused_connection", 4000.0),
+        ("fs_hist_reconnected_after_dead_connection", 10_000.0),
+        ("fs_hist_reconnected_after_fin-eager", 1500.0),
+        ("fs_hist_reconnected_after_fin-lazy", 700.0),
+        ("fs_hist_reconnected_after_rst-eager", 800.0),
+        ("fs_hist_reconnected_after_write-fails", 2000.0),
+        ("fs_hist_reconnected_after_no-reply", 2000.0),
+        ("fs_hist_reconnected_after_partial", 1500.0),
+        ("fs_hist_reconnected_after_fin-after-answer", 1200.0),
+        ("fs_hist_avail_applicable", 20_000.0),
+        ("fs_hist_avail_exact", 8000.0),
+        ("fs_hist_avail_sum", 12_000.0),
+        ("fs_hist_avail_later_lookup", 15_000.0),
+        ("fs_hist_avail_with_dead_pooled_connection", 11_000.0),
     ] {
         rep.must(name, m(min));
     }
